@@ -20,6 +20,7 @@ struct ProfileCfg {
         uint32_t max_ops = 200;
         uint32_t max_len = 2048;       // usual cap on message length; some runs lift it
         bool big_lens = true;          // allow runs near 64 KiB
+        double big_prob = 0.15;        // share of runs with the length cap lifted to 65534
         std::vector<Suite> fixed_suites; // if non-empty, draw suites from here
         int force_cfg = -1;
 };
